@@ -66,7 +66,7 @@ func dropTask(sc *Scenario, t int) *Scenario {
 func dropTaskFrom(calls []Call, t int) []Call {
 	var out []Call
 	for _, call := range calls {
-		if call.T == t && call.Op != "addnil" && call.Op != "addnoid" && call.Op != "dfs" && call.Op != "validate" && call.Op != "string" {
+		if call.T == t && call.Op != "addnil" && call.Op != "addnoid" && call.Op != "dfs" && call.Op != "validate" && call.Op != "validatetm" && call.Op != "string" {
 			continue
 		}
 		if call.Op == "dep" {
